@@ -1212,6 +1212,29 @@ def install(reg):
     reg.theory_methods[("symiter", "__delitem__")] = _symiter_delitem
     reg.theory_methods[("symiter", "append")] = _symiter_append
 
+    def _symiter_extend(I, o, a, k):
+        """l.extend(xs) on a list of unknown size: an arbitrary element of xs is remembered as appended (xs of unknown size:
+        evaluated on one arbitrary element, if it can be non-empty)"""
+        xs = I.force(a[0])
+        if isinstance(xs, PList):
+            for x in xs.items:
+                _symiter_append(I, o, [x], {})
+            return None
+        if isinstance(xs, TheoryObj) and xs.theory == "symgen":
+            src = xs.fields["iter"]
+            if I.ctx.decide(I.symiter_nonempty(src), "extend-source-nonempty"):
+                from ..engine import _MISSING
+                v = I.eval_gen_element(xs, src.fields["mk"](I))
+                if v is not _MISSING:
+                    _symiter_append(I, o, [v], {})
+            return None
+        if isinstance(xs, TheoryObj) and xs.theory == "symiter":
+            if I.ctx.decide(I.symiter_nonempty(xs), "extend-source-nonempty"):
+                _symiter_append(I, o, [xs.fields["mk"](I)], {})
+            return None
+        raise Unsupported("extend of a list of unknown size with this kind of iterable")
+    reg.theory_methods[("symiter", "extend")] = _symiter_extend
+
     def _symiter_clear(I, o, a, k):
         o.fields["nonempty"] = z3.BoolVal(False)
         o.fields["len"] = z3.IntVal(0)
